@@ -942,14 +942,24 @@ func (r *proxyStreamReceiver) sendPendingWatermarkToShard(targetShardID history.
 			SourceShard: msg.SourceShard,
 			Resp:        clonedResp,
 		}
-		select {
-		case sendChan <- clonedMsg:
-			r.logger.Debug("Sent pending watermark to local shard",
-				tag.NewStringTag("targetShard", ClusterShardIDtoString(targetShardID)))
-		default:
-			r.logger.Warn("Failed to send pending watermark to local shard (channel full)",
-				tag.NewStringTag("targetShard", ClusterShardIDtoString(targetShardID)))
-		}
+		// The channel may belong to a sender incarnation that has already closed it: guard the send with recover,
+		// like the other send sites do.
+		func() {
+			defer func() {
+				if panicErr := recover(); panicErr != nil {
+					r.logger.Warn("Failed to send pending watermark to local shard (channel closed)",
+						tag.NewStringTag("targetShard", ClusterShardIDtoString(targetShardID)))
+				}
+			}()
+			select {
+			case sendChan <- clonedMsg:
+				r.logger.Debug("Sent pending watermark to local shard",
+					tag.NewStringTag("targetShard", ClusterShardIDtoString(targetShardID)))
+			default:
+				r.logger.Warn("Failed to send pending watermark to local shard (channel full)",
+					tag.NewStringTag("targetShard", ClusterShardIDtoString(targetShardID)))
+			}
+		}()
 		return
 	}
 
